@@ -30,6 +30,7 @@ type vGen struct {
 	ctr   int
 	lastPlainIsSpace bool
 	wsOn             bool
+	lean             bool // scripted templates: one character per chunk, no whitespace inside markers
 }
 
 func vItoa(i int) string { return strconv.Itoa(i) }
@@ -53,6 +54,9 @@ func (g *vGen) plainChar(allowSpace bool) {
 	n := 2
 	if allowSpace {
 		n = 3
+	}
+	if g.lean {
+		n = 2 // scripted templates: an ASCII or a two-byte character (positions in characters, not bytes), no spaces
 	}
 	switch vChoose(t+".class", n) {
 	case 0:
@@ -156,10 +160,15 @@ func (g *vGen) closeAttr(a *vExpAttr) {
 
 // item appends one template item.
 func (g *vGen) item(maxProps int, last bool) {
+	g.itemOfKind(vChoose(g.tag("kind"), 6), maxProps, last)
+}
+
+// itemOfKind appends one template item of the given kind (scripted templates fix the kinds and leave names,
+// contents and properties symbolic).
+func (g *vGen) itemOfKind(kind int, maxProps int, last bool) {
 	t := g.tag("item")
-	kind := vChoose(t+".kind", 6)
 	if kind >= 2 {
-		g.wsOn = vChoose(t+".ws", 2) == 1
+		g.wsOn = !g.lean && vChoose(t+".ws", 2) == 1
 	}
 	if last && g.chars == 0 {
 		vAssume(kind <= 1) // a line without any plain text is outside the generator (see the final assumption)
@@ -167,7 +176,7 @@ func (g *vGen) item(maxProps int, last bool) {
 	switch kind {
 	case 0: // text chunk of 1..2 characters
 		g.plainChar(g.chars > 0)
-		if vChoose(t+".two", 2) == 1 {
+		if !g.lean && vChoose(t+".two", 2) == 1 {
 			g.plainChar(true)
 		}
 	case 1: // escaped bracket
@@ -262,6 +271,21 @@ func VHMarkupTemplate() {
 	items := vParam("ITEMS", 3)
 	maxProps := vParam("PROPS", 1)
 	g := &vGen{}
+	if vParam("SCRIPT", 0) == 1 {
+		// scripted template: three markers opened (names symbolic over a, b: repeated and distinct names), then closed
+		// one by one by name in every order the names allow, a one-character chunk after each marker --
+		// the shape in which a close marker has several open markers to choose from and others stay open around it
+		g.lean = true
+		for i := 0; i < 3; i++ {
+			g.itemOfKind(2, maxProps, false)
+			g.itemOfKind(0, maxProps, false)
+		}
+		for i := 0; i < 3; i++ {
+			g.itemOfKind(3, maxProps, false)
+			g.itemOfKind(0, maxProps, i == 2)
+		}
+		items = 0
+	}
 	for i := 0; i < items; i++ {
 		g.item(maxProps, i == items-1)
 	}
